@@ -269,6 +269,13 @@ def _group_codec(ctx, rep, ci, row, key, where):
               bad="%s.encode_value no longer validates %s raw bytes through its own read_value (length check %s, validation %s, ValueError %s)" % (ci.name, size, ok_len, ok_validate, ok_reject))
 
 
+def _cv(prog, fn, e):
+    try:
+        return prog.consteval(e, fn.module)
+    except NotConst:
+        return None
+
+
 def _offset_never_reassigned(ctx: Ctx) -> bool:
     def build():
         for f in ctx.prog.functions:
@@ -380,7 +387,13 @@ def r2(ctx: Ctx, rep: Report):
                         ok_rmw = len(reads) == 1 and len(reads[0][1].args) >= 2 and r.sym_at(reads[0][0]).lin(reads[0][1].args[0]) == own_addr \
                             and r.sym_at(reads[0][0]).lin(reads[0][1].args[1]) == Lin.of_const(1) and reads[0][0] < writes[0][0]
                         enc_calls = [ev.node for ev in p.events if ev.kind == "call" and (call_chain(ev.node) or ("",))[-1] == "encode_value"]
-                        ok_arg = enc_calls and len(enc_calls[0].args) == 2 and norm(enc_calls[0].args[1]).endswith(".response_data()[0:2]")
+                        ok_arg = False
+                        if enc_calls and len(enc_calls[0].args) == 2:
+                            a1 = enc_calls[0].args[1]     # <response>.response_data()[0:2] (any spelling of the slice)
+                            if isinstance(a1, ast.Subscript) and isinstance(a1.slice, ast.Slice) and a1.slice.step is None \
+                                    and (a1.slice.lower is None or _cv(prog, fn, a1.slice.lower) == 0) and a1.slice.upper is not None and _cv(prog, fn, a1.slice.upper) == 2 \
+                                    and isinstance(a1.value, ast.Call) and (call_chain(a1.value) or ("",))[-1] == "response_data":
+                                ok_arg = True
                         if not ok_rmw:
                             why = "a one-byte setting is not preceded by a read of exactly one register at %s.offset" % sp
                         elif not ok_arg:
